@@ -151,6 +151,31 @@ fn per_variant<V: Variant>(ops: &mut Vec<Op>) {
             compare_all_opts::<V>(&g, &r).map(|_| ())
         });
     }
+    // two live generators fed alternately (state that belongs in `self` but was hoisted to a static would mix them up)
+    for (dn, sa, sb, pa, pb) in [("mixed-vs-runs", Stream::Mixed, Stream::Runs, 7usize, 5usize), ("mixed-vs-zeros", Stream::Mixed, Stream::Zeros, 1, 64), ("alpha-vs-a40e", Stream::Alpha, Stream::A40e, 3, 4)] {
+        push(ops, "generate", dn == "mixed-vs-runs", format!("{v}/generate-interleaved/{dn}"), move || {
+            let (da, db) = (sa.bytes(0, 150), sb.bytes(0, 150));
+            let (mut ga, mut gb) = (V::new_gen(), V::new_gen());
+            let (mut oa, mut ob) = (0usize, 0usize);
+            let mut round = 0;
+            while oa < da.len() || ob < db.len() {
+                let ka = pa.min(da.len() - oa);
+                ga.update(&da[oa..oa + ka]);
+                oa += ka;
+                let kb = pb.min(db.len() - ob);
+                gb.update(&db[ob..ob + kb]);
+                ob += kb;
+                round += 1;
+                if round % 9 == 0 {
+                    // finalize one while the other is mid-stream
+                    compare_all_opts::<V>(&ga, &ref_fed::<V>(&da[..oa])).map_err(|e| format!("generator A after {oa} bytes (interleaved with B at {ob}): {e}"))?;
+                }
+            }
+            compare_all_opts::<V>(&ga, &ref_fed::<V>(&da)).map_err(|e| format!("generator A (interleaved): {e}"))?;
+            compare_all_opts::<V>(&gb, &ref_fed::<V>(&db)).map_err(|e| format!("generator B (interleaved): {e}"))?;
+            Ok(())
+        });
+    }
     // ---- stream domain
     let scripts: Vec<(&'static str, Script)> = vec![
         ("honest-70", Script { total: 70, deviations: vec![] }),
